@@ -200,3 +200,15 @@ Theorem C09_cluster_update_is_kernel_total : forall c (f : cfg -> Q),
   (expect (cluster_cfg c) f == expect (gkernel cl_act cl_k c) f)%Q.
 Proof. exact cluster_cfg_is_gkernel_total. Qed.
 Print Assumptions C09_cluster_update_is_kernel_total.
+
+(* the WEIGHTED cluster update (longitudinal field: cluster a flips with probability w_a / 2) is a reversible kernel
+   for the SSE weight on the complete configuration space, for every table and skeleton-only flip ratio such that
+   a legal operator is a value-independent cluster edge, or keeps its weight under a flip, or has flip ratio 0 *)
+From QmcV Require Import Proofs.UnconditionalFieldPipeline.
+Theorem C09_weighted_cluster_update_stationary_complete_space : forall H wfn nv L beta,
+  (forall o o', skel_of o = skel_of o' -> wfn o = wfn o') ->
+  (forall o, op_legal H o = true -> if is_edge o then edge_free H o else (flip_sym H o \/ wfn o == 0)%Q) ->
+  ham_vars_ok H nv ->
+  wstat (canon H (all_substates nv) L) (fun c => sse_weight H beta (snd c)) (cluster_cfg_w wfn).
+Proof. intros H wfn nv L beta H1 H2 H3. exact (cluster_w_stationary_canon H wfn H1 H2 nv L H3 beta). Qed.
+Print Assumptions C09_weighted_cluster_update_stationary_complete_space.
